@@ -424,10 +424,62 @@ func (i *interpreter) concretizeIndex(e *expr, what string) int64 {
 	}
 	lim := int64(i.ex.MaxConcretize)
 	if i.branch(mkGt(e, mkInt64(lim))) {
-		// Represent the large region by the largest feasible value? The caller decides; report a huge value.
-		return 1 << 40
+		// The region above the exhaustively forked range is represented by its two extremes: the smallest and the
+		// largest feasible value (found by binary search with the solver, hence the same on every re-execution).
+		// This is a concretisation: the values in between are not explored (counted in the evidence).
+		i.ex.mu.Lock()
+		i.ex.St.Concretised++
+		i.ex.mu.Unlock()
+		lo := i.extreme(e, lim+1, false)
+		v := lo
+		if i.ctx.checkSat(mkGt(e, mkInt64(lo))) == resSat {
+			if i.choose(2) == 1 {
+				v = i.extreme(e, lo+1, true)
+			}
+		}
+		i.ctx.assume(mkEq(e, mkInt64(v)))
+		return v
 	}
 	return i.concretize(e, 0, lim)
+}
+
+// extreme returns the smallest (or largest) value of e that is feasible on this path, given that some value >= lo is.
+func (i *interpreter) extreme(e *expr, lo int64, wantMax bool) int64 {
+	hi := int64(1) << 62
+	if _, bhi := e.bounds(); bhi != nil && bhi.IsInt64() && bhi.Int64() < hi {
+		hi = bhi.Int64()
+	}
+	feasible := func(c *expr) bool {
+		switch i.ctx.checkSat(c) {
+		case resSat:
+			return true
+		case resUnsat:
+			return false
+		}
+		i.abort("cut", "solver could not bound a symbolic size")
+		return false
+	}
+	l, h := lo, hi
+	if wantMax {
+		for l < h {
+			mid := l + (h-l+1)/2
+			if feasible(mkGe(e, mkInt64(mid))) {
+				l = mid
+			} else {
+				h = mid - 1
+			}
+		}
+		return l
+	}
+	for l < h {
+		mid := l + (h-l)/2
+		if feasible(mkAnd(mkGe(e, mkInt64(lo)), mkLe(e, mkInt64(mid)))) {
+			h = mid
+		} else {
+			l = mid + 1
+		}
+	}
+	return l
 }
 
 // makeSize evaluates len/cap of make(), applying the memory monitor to symbolic sizes.
